@@ -56,11 +56,15 @@ def run(chk, repo, tier):
                        "(PopVerify: POP_TAG)", 1 + 8)
     chk.rule("C02.R3", "hashed message term: bare message (basic, PoP), PK‖message (augmentation, verifying key), PK (PopVerify)", 8)
     chk.rule("C02.R4", "compared exponent is e(sig, G1)·e(H(m), PK)^-1 (accept ⇔ σ = sk·h in the formal bilinear domain)", 8)
+    chk.rule("C02.R5", "the byte strings reach the point decoders unmodified: signature_to_G2(s) = decompress_G2((OS2IP(s[:48]), OS2IP(s[48:]))), "
+                       "pubkey_to_G1(k) = decompress_G1(OS2IP(k)) — no bit of the candidate is masked before the canonical-form checks (C11)", 4)
     chk.not_decided += ["the unconditional 'iff' (uniqueness needs bilinearity + non-degeneracy, C05, and canonical decoding, C11)"]
     chk.depends_on += ["C05", "C11", "C04"]
     M = Model(repo, "P")
     it0 = Interp(M.world)
     G1c = hp(it0.eval_global(repo.module(CS), "G1"))
+    from .C11 import byte_helpers
+    byte_helpers(chk, repo, M.world, rule="C02.R5")
     tags = tags_of(M, repo)
     # R2a: pairwise distinct, non-empty
     vals = list(tags.items())
